@@ -39,14 +39,33 @@ def main():
     ap.add_argument("--tier", default=os.environ.get("VERIF_TIER", "quick"),
                     choices=["quick", "thorough"])
     ap.add_argument("--replay")
+    ap.add_argument("--judge-file")
     args = ap.parse_args()
     seed = int(os.environ.get("VERIF_SEED", "0") or 0)
 
     try:
         core.bootstrap()
+        if args.judge_file:
+            # child of core.interpreter_modes(): judge the given cases under THIS interpreter's flags
+            import pickle  # pylint: disable=import-outside-toplevel
+
+            with open(args.judge_file, "rb") as fh:
+                job = pickle.load(fh)
+            mod = importlib.import_module(f"checks.{job['pid'].lower()}")
+            viols = []
+            for idx, case in enumerate(job["cases"]):
+                out = mod.judge(case)
+                if out.violations:
+                    viols.append([idx, [[s, m[:600]] for s, m in out.violations[:3]]])
+            print("MODE-RESULT " + json.dumps({"judged": len(job["cases"]), "violations": viols[:50]}))
+            return 0
         if args.replay:
             with open(args.replay, encoding="utf-8") as fh:
                 body = json.load(fh)
+            flags = body.get("case", {}).get("interp_flags") if isinstance(body.get("case"), dict) else None
+            if flags and os.environ.get("VERIF_INTERP") != "1":
+                os.execve(sys.executable, [sys.executable, *flags] + sys.argv,
+                          dict(os.environ, VERIF_INTERP="1"))
             pid = body["property"]
             mod = importlib.import_module(f"checks.{pid.lower()}")
             out = mod.judge(core.unjson(body["case"]))
